@@ -1,14 +1,24 @@
 // C15 — Allocation failure yields an error — never a crash, leak or wrong code.
 //
 // One Case = (workload, instantiation, fault plan).
-//   cfg = [W, variant, p0, p1, p2, p3, reset_hard, mode]
+//   cfg = [W, variant, p0, p1, p2, p3, reset_hard, mode, hist]
 //     W        1 assemble  2 build+serialize  3 compile  4 JIT runtime / allocator / virtmem  5 containers
 //     variant  W1-3: 0 x86-64, 1 AArch64      W4: 0 JitRuntime::add/release, 1 JitAllocator ops, 2 VirtMem ops
 //     p0..p3   W1/W2: extra sections+alignment, label count, base address, bits (1 logger, 2 error handler, 8 re-run through reinit(),
 //              16 previous use + reinit() inside the fault window)   W3: virtual register count, bits (1 logger, 2 error handler,
 //              4 two functions)   W4: allocator option bits, misc   W5: arena block size
 //     mode     bit0: continue after the first error (W1/W5 only; every later error is tolerated, no crash allowed)
+//     hist     0: one generation (as before). != 0 (W1/W2/W3/W5): a HISTORY inside the fault window - the same objects run generation
+//              A (a prefix of the steps), are soft-reset, and run generation B (all steps = the larger program); only B's output is
+//              judged. mask 2: the in-window reset is CodeHolder::reinit() instead of reset(kSoft)+init()+attach() (W1-W3); mask 4: growing
+//              requests (every generation asks for more than the previous one: Builder/Compiler embed() of 135000/270000/530000 bytes ->
+//              builder-arena requests larger than the kept block, W5 alloc_oneshot of 3x/5x/7x the block size, named labels with long
+//              names, a growing ConstPool); mask 8: three generations; masks 16+32: prefix of generation A (1/2, 1/4, 3/4, all)
 //   ops: [code<50, a, b, c]             program step of the workload (decoded robustly)
+//        [50..89, a, b, c]              W5 only: arena-history step, kind (code-50) mod 6: 0 soft reset of every container + Arena::reset(kSoft)
+//                                       1 large alloc_oneshot / alloc_oneshot_zeroed (1024..300000 bytes, c&1: at least twice the largest
+//                                       request so far) 2 large Arena::dup / ArenaString::set_data 3 ConstPool burst 4 ArenaVector growth
+//                                       burst 5 ArenaHash growth burst
 //        [90, kind, k, from, size, site]  fault entry: kind 0 arena (H1 hook) 1 heap (malloc/realloc/calloc) 2 virtual memory
 //                                       (mmap/mprotect/ftruncate/shm_open/memfd_create); fail request #k (from != 0: every request
 //                                       >= k); optional size / site restrict the entry to requests of that size / issued by the
@@ -17,7 +27,9 @@
 // assertion / exception, (b) an injected fault must surface as an error of some API call or the output must be byte-identical,
 // (c) reset()/re-init of the SAME objects and a fault-free re-run must reproduce the reference output, (d) after destroying
 // everything no heap block / mapping / descriptor obtained through the wrapped entry points is live and LeakSanitizer's recoverable
-// check is clean.
+// check is clean, (e) after the faulted run and after the re-run every block listed by an Arena of the workload (W5 arena, CodeHolder
+// arena, ConstPool arena, Builder/Compiler node and pass arenas) is a live heap block: a stale link is reported under its own key
+// (<W>-<kind>-arena-references-released-block) before the use-after-free / double free it leads to aborts the process.
 #define VH_MAIN
 #include "vh.h"
 
@@ -61,6 +73,9 @@ struct State {
   int phase = 0;           // 0 reference 1 faulty 2 rerun
   uint64_t count[kKinds] = {0, 0, 0};
   uint64_t hits[kKinds] = {0, 0, 0};
+  bool marked = false;                 // the workload passed its first in-window soft reset
+  uint64_t mark[kKinds] = {0, 0, 0};   // request counts at that moment
+  uint64_t hits_after_mark = 0;        // faults injected after it
   Entry plan[8];
   int nplan = 0;
   uint64_t heap_seq = 0;
@@ -114,6 +129,7 @@ static inline bool should_fail(int kind, const char* what, size_t req_size, bool
   if (!fail) return false;
   if (excluded_site) { S.suppressed++; return false; }
   S.hits[kind]++; S.last_fail = what;
+  if (S.marked) S.hits_after_mark++;
   if (S.hits[0] + S.hits[1] + S.hits[2] == 1) { if (!S.need_site && !S.record_sites) site_name(nm, sizeof nm); snprintf(g_site, sizeof g_site, "%s in %s", what, nm); }
   if (g_trace_fail) { fprintf(stderr, "---- injected failure: %s request #%llu (size %zu) ----\n", what, (unsigned long long)idx, req_size); __sanitizer_print_stack_trace(); }
   return true;
@@ -122,13 +138,16 @@ static void arm(const std::vector<Entry>& plan) {
   S.nplan = 0;
   S.need_site = false;
   for (const Entry& e : plan) if (S.nplan < 8) { S.plan[S.nplan] = e; S.plan[S.nplan++].seen = 0; if (e.site) S.need_site = true; }
-  for (int k = 0; k < kKinds; k++) { S.count[k] = 0; S.hits[k] = 0; }
+  for (int k = 0; k < kKinds; k++) { S.count[k] = 0; S.hits[k] = 0; S.mark[k] = 0; }
+  S.marked = false; S.hits_after_mark = 0;
   S.last_fail = "";
   g_site[0] = 0;
   S.suppressed = 0;
   S.armed = true;
 }
 static void disarm() { S.armed = false; }
+// Called by a workload immediately before its first soft reset inside the fault window.
+static void mark_reset_point() { if (S.armed && !S.marked) { S.marked = true; for (int k = 0; k < kKinds; k++) S.mark[k] = S.count[k]; } }
 static uint64_t total_hits() { return S.hits[0] + S.hits[1] + S.hits[2]; }
 } // namespace fi
 
@@ -254,6 +273,7 @@ struct Res {
   std::string bytes;          // output compared between the reference and a faulted-but-successful run
   std::string full;           // superset compared between the reference and the re-run (layouts that may legitimately vary under faults)
   std::string sem;            // non-empty: the workload itself observed wrong content (semantic check), with description
+  std::set<std::string> shapes;   // what the instantiation actually did (class counters)
 };
 
 // Records the first error; returns true when the workload has to stop.
@@ -286,12 +306,54 @@ public:
   virtual ~Workload() {}
   virtual void run(Res& r) = 0;        // performs the complete work on this object's AsmJit objects
   virtual void reset(bool hard) = 0;   // resets / re-initialises every AsmJit object (faults disarmed)
+  virtual bool arenas_ok(std::string& why) { (void)why; return true; }   // every block an Arena references is a live heap block
 };
+
+// An Arena must only reference memory it owns: every managed / dynamic block in its lists is a live block obtained through the
+// wrapped malloc (the static first block and the shared zero block excepted). Nothing is dereferenced before it is known to be live.
+static Arena::ManagedBlock* g_zero_block = nullptr;
+static bool g_arena_check = true;      // --arenacheck=0: leave the detection of a stale block to ASan (use-after-free / double free)
+static bool arena_blocks_ok(Arena& a, const char* name, std::string& why) {
+  if (!fi::S.live || !fi::S.tracking || !g_arena_check) return true;
+  size_t n = 0;
+  for (Arena::ManagedBlock* b = a._first_block; b && b != g_zero_block; n++) {
+    bool is_static = a.has_static_block() && b == a._first_block;
+    if (!is_static && !fi::S.live->count(static_cast<void*>(b))) {
+      char m[200]; snprintf(m, sizeof m, "%s: managed block #%zu of the block list is not a live heap block (released or never allocated)", name, n);
+      why = m; return false;
+    }
+    if (n > 1000000) { why = std::string(name) + ": managed block list does not end"; return false; }
+    b = b->next;
+  }
+  n = 0;
+  for (Arena::DynamicBlock* b = a._dynamic_blocks; b; n++) {
+    if (!fi::S.live->count(static_cast<void*>(b))) {
+      char m[200]; snprintf(m, sizeof m, "%s: dynamic block #%zu of the block list is not a live heap block (released or never allocated)", name, n);
+      why = m; return false;
+    }
+    if (n > 1000000) { why = std::string(name) + ": dynamic block list does not end"; return false; }
+    b = b->next;
+  }
+  return true;
+}
+static size_t arena_block_count(Arena& a) {
+  size_t n = 0;
+  for (Arena::ManagedBlock* b = a._first_block; b && b != g_zero_block; b = b->next) n++;
+  return n;
+}
+// Number of kept blocks after the current one whose capacity is below `size` (they are released by a oneshot request of that size).
+static size_t arena_kept_blocks_smaller_than(Arena& a, size_t size) {
+  size_t n = 0;
+  if (!a._current_block || a._current_block == g_zero_block) return 0;
+  for (Arena::ManagedBlock* b = a._current_block->next; b && b->size < size; b = b->next) n++;
+  return n;
+}
 
 struct Decoded {
   int W = 5, variant = 0;
   int64_t p[4] = {0, 0, 0, 0};
   bool hard = false, cont = false;
+  int hist = 0;        // history bits (see the header comment); 0: a single generation
   std::vector<vh::Op> steps;
   std::vector<fi::Entry> plan;
   std::string key;     // text of the instantiation (without the plan): reference cache key
@@ -302,6 +364,24 @@ static const char kKeyConstPoolShared[] = "constpool-shared-node-null-deref";
 static const char kKeyDeltaReloc[] = "embed-label-delta-oom-stale-reloc";
 static bool g_excl_delta = false;       // the key above is listed: relocate_to_base is not called after a failed embed_label_delta
 static uint64_t g_excluded_delta = 0;
+// history helpers: number of generations, number of steps of generation g
+static size_t hist_gens(const Decoded& d) { return !d.hist ? 1 : (d.hist & 8) ? 3 : 2; }
+static size_t hist_steps(const Decoded& d, size_t g) {
+  size_t n = d.steps.size(), ng = hist_gens(d);
+  if (g + 1 >= ng) return n;
+  static const size_t num[] = {2, 1, 3, 4};
+  size_t a = n * num[(d.hist >> 4) & 3] / 4;
+  return g == 0 ? a : std::min(n, a + (n - a) / 2);
+}
+// Builder node arena: the first block holds 128 KiB, every further block twice the previous one. Generation A's data block needs a
+// second block (256 KiB), the next generation's does not fit into that kept block (it is released and a 512 KiB one requested), ...
+static const size_t kHistEmbed[] = {135000, 270000, 530000};
+static void hist_fill(std::string& data, uint64_t seed) {
+  uint64_t x = seed * 0x9E3779B97F4A7C15ull + 1;
+  size_t i = 0;
+  for (; i + 8 <= data.size(); i += 8) { x = x * 6364136223846793005ull + 1442695040888963407ull; memcpy(&data[i], &x, 8); }
+  for (; i < data.size(); i++) data[i] = char(x >> (8 * (i & 7)));
+}
 static const char* wname(int W) { static const char* n[] = {"w0", "w1", "w2", "w3", "w4", "w5"}; return n[W >= 1 && W <= 5 ? W : 0]; }
 
 // =============================================================================================
@@ -347,20 +427,143 @@ public:
     for (size_t i = 0; i < n; i++) { seed = seed * 6364136223846793005ull + 1442695040888963407ull; s += char('a' + (seed >> 33) % 26); }
   }
 
+  bool arenas_ok(std::string& why) override { return arena_blocks_ok(arena, "W5 arena", why); }
+
+  // The block size of the arena (Arena rounds the constructor argument up to the next power of two above it).
+  size_t blk() const { return kArenaBlk[umod(d.p[0], NELEM(kArenaBlk))]; }
+
   void run(Res& r) override {
     Tracker T(r, d.cont);
-    struct PoolRec { size_t off, size; std::string data; };
+    size_t ngen = hist_gens(d);
+    for (size_t g = 0; g < ngen; g++) {
+      if (g) {
+        // the history's soft reset, inside the fault window: every container is dropped, the arena keeps its blocks
+        fi::mark_reset_point();
+        if (arena_block_count(arena) >= 2) r.shapes.insert("arena_2plus_blocks_at_soft_reset");
+        reset(false);
+        r.bytes.clear(); r.full.clear();
+        r.shapes.insert("soft_reset_between_generations");
+      }
+      run_gen(r, T, hist_steps(d, g), g);
+      if (T.failed() && !d.cont) return;
+    }
+  }
+
+  struct PoolRec { size_t off, size; std::string data; };
+  struct Big { uint8_t* p; size_t n; uint8_t pat; std::string copy; };
+
+  // A oneshot request of `n` bytes is about to be made: records what it will meet (kept blocks after a soft reset).
+  void note_request(Res& r, size_t n) {
+    if (n <= arena.remaining_size()) return;
+    if (arena._current_block && arena._current_block != g_zero_block && arena._current_block->next) {
+      r.shapes.insert("slow_request_with_kept_blocks");
+      size_t k = arena_kept_blocks_smaller_than(arena, n);
+      if (k) r.shapes.insert("request_larger_than_next_kept_block");
+      if (k > 1) r.shapes.insert("request_larger_than_2plus_kept_blocks");
+    }
+  }
+
+  void run_gen(Res& r, Tracker& T, size_t nsteps, size_t gen) {
     std::vector<PoolRec> precs;
     std::vector<uint32_t> hkeys;
+    std::vector<Big> bigs;
     std::string text;
+    size_t last_big = 0;
+    bool soft_reset_seen = gen != 0;
+    auto big_request = [&](size_t n, bool zeroed, uint8_t pat) -> bool {   // false: failed
+      note_request(r, n);
+      if (soft_reset_seen) r.shapes.insert("large_request_after_soft_reset");
+      void* p = zeroed ? arena.alloc_oneshot_zeroed(n) : arena.alloc_oneshot(n);
+      if (!p) return false;
+      if (zeroed) for (size_t i = 0; i < n; i += 509) if (static_cast<uint8_t*>(p)[i]) r.sem = "alloc_oneshot_zeroed returned memory that is not zero";
+      memset(p, pat, n);
+      bigs.push_back(Big{static_cast<uint8_t*>(p), n, pat, std::string()});
+      last_big = std::max(last_big, n);
+      return true;
+    };
     // The first arena request creates the first managed block (a dynamic block without any managed block would never be
     // released by ~Arena: recorded under C18 as arena-hard-reset-leaks-dynamic, avoided here by construction).
     { void* p0 = arena.alloc_oneshot(8); TRY(T, p0 ? Error::kOk : Error::kOutOfMemory, "Arena::alloc_oneshot"); }
     int sidx = 0;
-    for (const vh::Op& op : d.steps) {
+    for (size_t si = 0; si < nsteps && si < d.steps.size(); si++) {
+      const vh::Op& op = d.steps[si];
       T.step = sidx++;
       int64_t a = argof(op, 1), b = argof(op, 2), c = argof(op, 3);
-      switch (umod(argof(op, 0), 12)) {
+      // growing requests of a history: half way through, every generation asks for more than the previous one got
+      if ((d.hist & 4) && si == nsteps / 2) {
+        size_t n = std::min<size_t>(blk(), 16384) * (3 + 2 * gen);
+        TRY(T, big_request(n, false, uint8_t(0xB0 + gen)) ? Error::kOk : Error::kOutOfMemory, "Arena::alloc_oneshot(growing)");
+      }
+      int64_t code = argof(op, 0);
+      if (code >= 50 && code < 90) {
+        switch ((code - 50) % 6) {
+          case 0: {
+            fi::mark_reset_point();
+            if (arena_block_count(arena) >= 2) r.shapes.insert("arena_2plus_blocks_at_soft_reset");
+            reset(false);
+            precs.clear(); hkeys.clear(); bigs.clear();
+            soft_reset_seen = true;
+            r.shapes.insert("soft_reset_step");
+            break;
+          }
+          case 1: {
+            static const size_t zs[] = {1024, 2040, 3000, 4096, 6000, 9000, 20000, 40000, 70000, 140000, 300000};
+            size_t n = zs[umod(b, NELEM(zs))];
+            if (c & 1) n = std::min<size_t>(std::max(n, last_big * 2), 400000);
+            TRY(T, big_request(n, (c & 2) != 0, uint8_t(0x40 + umod(a, 64))) ? Error::kOk : Error::kOutOfMemory, (c & 2) ? "Arena::alloc_oneshot_zeroed(large)" : "Arena::alloc_oneshot(large)");
+            break;
+          }
+          case 2: {
+            static const size_t ls[] = {200, 600, 1500, 2500, 5000, 9000, 30000};
+            size_t n = ls[umod(b, NELEM(ls))];
+            make_text(text, uint64_t(a) + 11, n);
+            note_request(r, n + 8);
+            if (soft_reset_seen) r.shapes.insert("large_string_after_soft_reset");
+            if (c & 1) TRY(T, astr[(c >> 1) & 1].set_data(arena, text.data(), text.size()), "ArenaString::set_data(large)");
+            else {
+              char* p = static_cast<char*>(arena.dup(text.data(), text.size(), true));
+              TRY(T, p ? Error::kOk : Error::kOutOfMemory, "Arena::dup(large)");
+              if (p) { if (p[n] != 0) r.sem = "Arena::dup(null_terminate) did not terminate the copy"; bigs.push_back(Big{reinterpret_cast<uint8_t*>(p), n, 0, text}); r.bytes.append(p, n); }
+            }
+            break;
+          }
+          case 3: {
+            size_t n = 8 + umod(b, 40), size = size_t(8) << umod(c, 3);
+            if (soft_reset_seen) r.shapes.insert("constpool_burst_after_soft_reset");
+            for (size_t i = 0; i < n; i++) {
+              uint8_t data[32];
+              uint64_t x = uint64_t(a) * 1000003u + i * 7919u + 1;
+              for (size_t j = 0; j < 32; j += 8) { x = x * 6364136223846793005ull + 1442695040888963407ull; memcpy(data + j, &x, 8); }
+              size_t off = size_t(0) - 1;
+              TRY(T, pool.add(data, size, Out(off)), "ConstPool::add(burst)");
+              if (off != size_t(0) - 1) precs.push_back(PoolRec{off, size, std::string(reinterpret_cast<char*>(data), size)});
+            }
+            break;
+          }
+          case 4: {
+            size_t n = 200 + umod(b, 8) * 200;
+            if (soft_reset_seen) r.shapes.insert("vector_burst_after_soft_reset");
+            for (size_t i = 0; i < n && v32.size() < 6000; i++) TRY(T, v32.append(arena, uint32_t(a) * 17u + uint32_t(i)), "ArenaVector::append(burst)");
+            break;
+          }
+          default: {
+            size_t n = 60 + umod(b, 6) * 60;
+            if (soft_reset_seen) r.shapes.insert("hash_burst_after_soft_reset");
+            for (size_t i = 0; i < n && hkeys.size() < 2000; i++) {
+              uint32_t k = uint32_t(a) * 131u + uint32_t(i) * 3u + 0x10000u;
+              if (hash.get(HKey{k})) continue;
+              HNode* node = arena.new_oneshot<HNode>(HKey{k}.hash_code(), k, k ^ 0x5A5Au);
+              if (T.bad(node ? Error::kOk : Error::kOutOfMemory, "Arena::new_oneshot(burst)")) return;
+              if (!node) continue;
+              hash.insert(arena, node);
+              hkeys.push_back(k);
+            }
+            break;
+          }
+        }
+        continue;
+      }
+      switch (umod(code, 12)) {
         case 0: { size_t n = 1 + umod(b, 40); for (size_t i = 0; i < n; i++) TRY(T, v32.append(arena, uint32_t(a + int64_t(i))), "ArenaVector::append"); break; }
         case 1: { size_t n = 1 + umod(b, 12); for (size_t i = 0; i < n; i++) { uint32_t x = uint32_t(a) + uint32_t(i); TRY(T, v24.append(arena, Rec24{x, x + 1, x + 2, x + 3, x + 4, x + 5}), "ArenaVector<24>::append"); } break; }
         case 2: {
@@ -445,6 +648,13 @@ public:
       }
     }
     T.step = sidx;
+    // memory handed out by large oneshot requests since the last soft reset still holds what was written into it
+    for (const Big& bg : bigs) {
+      bool ok = true;
+      if (!bg.copy.empty()) ok = memcmp(bg.p, bg.copy.data(), bg.n) == 0 && bg.p[bg.n] == 0;
+      else for (size_t i = 0; i < bg.n; i++) if (bg.p[i] != bg.pat) { ok = false; break; }
+      if (!ok) { char m[160]; snprintf(m, sizeof m, "memory handed out by a large Arena request (%zu bytes) was overwritten by a later request", bg.n); r.sem = m; }
+    }
     // ---- serialise the final state ----
     std::string& o = r.bytes;
     put_u64(o, v32.size()); for (uint32_t x : v32) o.append(reinterpret_cast<const char*>(&x), 4);
@@ -563,8 +773,46 @@ public:
     }
   }
 
+  Arena* builder_arena() { return !builder ? nullptr : arch == 0 ? &xb._builder_arena : &ab._builder_arena; }
+
+  bool arenas_ok(std::string& why) override {
+    if (!arena_blocks_ok(code.arena(), "CodeHolder arena", why) || !arena_blocks_ok(pool_arena, "ConstPool arena", why)) return false;
+    if (builder) {
+      BaseBuilder* bb = arch == 0 ? static_cast<BaseBuilder*>(&xb) : static_cast<BaseBuilder*>(&ab);
+      if (!arena_blocks_ok(bb->_builder_arena, "Builder node arena", why) || !arena_blocks_ok(bb->_pass_arena, "Builder pass arena", why)) return false;
+    }
+    return true;
+  }
+
   void run(Res& r) override {
     Tracker T(r, d.cont);
+    size_t ngen = hist_gens(d);
+    for (size_t g = 0; g < ngen; g++) {
+      if (g) {
+        // the history's soft reset, inside the fault window: the holder (and with it the attached emitter and its arenas), the
+        // constant pool and its arena are reused for a larger program
+        fi::mark_reset_point();
+        if (arena_block_count(code.arena()) >= 2) r.shapes.insert("holder_arena_2plus_blocks_at_reset");
+        if (arena_block_count(pool_arena) >= 2) r.shapes.insert("constpool_arena_2plus_blocks_at_reset");
+        if (Arena* ba = builder_arena()) if (arena_block_count(*ba) >= 2) r.shapes.insert("builder_arena_2plus_blocks_at_reset");
+        r.bytes.clear(); r.full.clear();
+        pool.reset();
+        pool_arena.reset(ResetPolicy::kSoft);
+        logger.clear();
+        if ((d.hist & 2) && code.is_initialized() && emitter()->code() == &code) {
+          r.shapes.insert("reinit_between_generations");
+          if (T.bad(code.reinit(), "CodeHolder::reinit")) return;      // after a failed reinit() the holder is uninitialised: run_gen() starts from init()
+        } else {
+          r.shapes.insert("soft_reset_between_generations");
+          code.reset(ResetPolicy::kSoft);
+        }
+      }
+      run_gen(r, T, hist_steps(d, g), g);
+      if (T.failed() && !d.cont) return;
+    }
+  }
+
+  void run_gen(Res& r, Tracker& T, size_t nsteps, size_t gen) {
     bool has_delta = false, tainted_delta = false;
     BaseEmitter* e = emitter();
     uint64_t base = kW1Bases[umod(d.p[2], NELEM(kW1Bases))];
@@ -572,8 +820,9 @@ public:
       Environment env(arch == 0 ? Arch::kX64 : Arch::kAArch64);
       // reinit variant: the base address is part of what reinit() keeps, so it is given to init() in every run
       if (T.bad((d.p[3] & 8) ? code.init(env, base) : code.init(env), "CodeHolder::init")) return;
-      if (T.failed()) return;                       // nothing can be done with an uninitialised CodeHolder
-      if (d.p[3] & 1) { logger.set_flags(FormatFlags::kMachineCode | FormatFlags::kHexImms); code.set_logger(&logger); }
+      if (!code.is_initialized()) return;           // nothing can be done with an uninitialised CodeHolder
+      // (the log of a 100+ KiB embed() would dominate the run: growing histories run without logger)
+      if ((d.p[3] & 1) && !(d.hist & 4)) { logger.set_flags(FormatFlags::kMachineCode | FormatFlags::kHexImms); code.set_logger(&logger); }
       if (d.p[3] & 2) code.set_error_handler(&eh);
     }
     if (e->code() != &code) {
@@ -630,7 +879,8 @@ public:
     size_t cur = 0;
     unsigned named = 0;
     int sidx = 0;
-    for (const vh::Op& op : d.steps) {
+    for (size_t si = 0; si < nsteps && si < d.steps.size(); si++) {
+      const vh::Op& op = d.steps[si];
       T.step = sidx++;
       int64_t a = argof(op, 1), b = argof(op, 2), c = argof(op, 3);
       switch (umod(argof(op, 0), 13)) {
@@ -700,6 +950,50 @@ public:
       }
     }
     T.step = sidx;
+    if (d.hist & 4) {
+      // growing history: every generation asks for more than the previous one got.
+      // (a) named labels with long names: the holder's arena (32 KiB blocks) gets a second block in generation A already
+      size_t nnamed = gen == 0 ? 18 : 6;
+      for (size_t i = 0; i < nnamed; i++) {
+        char head[40]; snprintf(head, sizeof head, "hist_%zu_%zu_", gen, i);
+        std::string name = std::string(head) + std::string(1900, char('a' + (i % 26)));
+        Label nlb = e->new_named_label(name.c_str(), name.size(), LabelType::kGlobal);
+        if (T.bad(nlb.is_valid() ? Error::kOk : Error::kOutOfMemory, "new_named_label(long)")) return;
+        if (nlb.is_valid()) TRY(T, e->bind(nlb), "bind");
+      }
+      // (b) a constant pool that outgrows the blocks its arena kept
+      {
+        pool.reset();
+        size_t nconst = 16 * (gen + 1);
+        bool pool_ok = true;
+        for (size_t i = 0; i < nconst; i++) {
+          uint64_t cv[2] = {0x9E3779B97F4A7C15ull * (i + 1) + gen, ~uint64_t(i) * 0xD1B54A32D192ED03ull};
+          size_t off;
+          Error pe = pool.add(cv, 16, Out(off));
+          if (pe != Error::kOk) pool_ok = false;
+          TRY(T, pe, "ConstPool::add(growing)");
+        }
+        if (pool_ok) {
+          Label pl = e->new_label();
+          if (T.bad(pl.is_valid() ? Error::kOk : Error::kOutOfMemory, "new_label")) return;
+          if (pl.is_valid()) TRY(T, e->embed_const_pool(pl, pool), "embed_const_pool(growing)");
+        }
+      }
+      // (c) a data block: through a Builder it is ONE node-arena request that the kept blocks cannot hold (see kHistEmbed); through
+      //     the Assembler it grows the section buffer
+      {
+        size_t len = builder ? kHistEmbed[std::min<size_t>(gen, 2)] : 20000 * (gen + 1);
+        std::string data(len, 0);
+        hist_fill(data, gen + 12345);
+        if (Arena* ba = builder_arena()) {
+          if (len > ba->remaining_size() && ba->_current_block && ba->_current_block != g_zero_block && ba->_current_block->next) {
+            r.shapes.insert("builder_slow_request_with_kept_blocks");
+            if (arena_kept_blocks_smaller_than(*ba, len)) r.shapes.insert("builder_request_larger_than_next_kept_block");
+          }
+        }
+        TRY(T, e->embed(data.data(), len), "embed(growing)");
+      }
+    }
     for (size_t i = 0; i < nl; i++) {
       if (bound[i]) continue;
       if (nsec > 1 && cur != home(i)) { cur = home(i); TRY(T, e->section(secs[cur]), "section"); }
@@ -750,8 +1044,14 @@ public:
 
   struct Open { Label label; bool loop; size_t counter; };
 
+  bool arenas_ok(std::string& why) override {
+    BaseBuilder* bb = arch == 0 ? static_cast<BaseBuilder*>(&xc) : static_cast<BaseBuilder*>(&ac);
+    return arena_blocks_ok(code.arena(), "CodeHolder arena", why) && arena_blocks_ok(bb->_builder_arena, "Compiler node arena", why) &&
+           arena_blocks_ok(bb->_pass_arena, "Compiler pass arena", why);
+  }
+
   template<typename CC, typename GP>
-  void gen_func(CC& cc, Tracker& T, size_t nv, unsigned fidx) {
+  void gen_func(CC& cc, Tracker& T, size_t nv, unsigned fidx, size_t nsteps) {
     constexpr bool X = std::is_same<CC, x86::Compiler>::value;
     std::vector<GP> v(nv);
     GP ptr, fn, cnt[3];
@@ -770,7 +1070,8 @@ public:
     size_t ncnt = 0;
     unsigned invokes = 0;
     int sidx = 0;
-    for (const vh::Op& op : d.steps) {
+    for (size_t si = 0; si < nsteps && si < d.steps.size(); si++) {
+      const vh::Op& op = d.steps[si];
       T.step = sidx++;
       int64_t a = argof(op, 1), b = argof(op, 2), c = argof(op, 3);
       size_t ia = umod(a, nv), ib = umod(b, nv), ic = umod(c + a, nv);
@@ -869,17 +1170,57 @@ public:
 
   void run(Res& r) override {
     Tracker T(r, false);
-    Environment env(arch == 0 ? Arch::kX64 : Arch::kAArch64);
-    TRY(T, code.init(env), "CodeHolder::init");
-    if (d.p[1] & 1) { logger.set_flags(FormatFlags::kMachineCode); code.set_logger(&logger); }
-    if (d.p[1] & 2) code.set_error_handler(&eh);
+    size_t ngen = hist_gens(d);
+    for (size_t g = 0; g < ngen; g++) {
+      if (g) {
+        // the history's soft reset, inside the fault window: holder and Compiler (node arena, pass arena, virtual registers) are
+        // reused for a larger function
+        fi::mark_reset_point();
+        if (arena_block_count(code.arena()) >= 2) r.shapes.insert("holder_arena_2plus_blocks_at_reset");
+        if (arena_block_count(arch == 0 ? xc._builder_arena : ac._builder_arena) >= 2) r.shapes.insert("builder_arena_2plus_blocks_at_reset");
+        r.bytes.clear(); r.full.clear();
+        logger.clear();
+        BaseEmitter* e = arch == 0 ? static_cast<BaseEmitter*>(&xc) : static_cast<BaseEmitter*>(&ac);
+        if ((d.hist & 2) && code.is_initialized() && e->code() == &code) {
+          r.shapes.insert("reinit_between_generations");
+          TRY(T, code.reinit(), "CodeHolder::reinit");
+        } else {
+          r.shapes.insert("soft_reset_between_generations");
+          code.reset(ResetPolicy::kSoft);
+        }
+      }
+      run_gen(r, T, hist_steps(d, g), g, ngen);
+      if (T.failed()) return;
+    }
+  }
+
+  void run_gen(Res& r, Tracker& T, size_t nsteps, size_t gen, size_t ngen) {
     BaseEmitter* e = arch == 0 ? static_cast<BaseEmitter*>(&xc) : static_cast<BaseEmitter*>(&ac);
-    TRY(T, code.attach(e), "CodeHolder::attach");
+    if (!code.is_initialized()) {
+      Environment env(arch == 0 ? Arch::kX64 : Arch::kAArch64);
+      TRY(T, code.init(env), "CodeHolder::init");
+      if ((d.p[1] & 1) && !(d.hist & 4)) { logger.set_flags(FormatFlags::kMachineCode); code.set_logger(&logger); }
+      if (d.p[1] & 2) code.set_error_handler(&eh);
+    }
+    if (e->code() != &code) TRY(T, code.attach(e), "CodeHolder::attach");
     size_t nv = 3 + umod(d.p[0], 30);
+    if (gen + 1 < ngen) nv = std::max<size_t>(3, nv * (gen + 1) / ngen);      // earlier generations: fewer virtual registers
     unsigned nfunc = (d.p[1] & 4) ? 2 : 1;
     for (unsigned f = 0; f < nfunc; f++) {
-      if (arch == 0) gen_func<x86::Compiler, x86::Gp>(xc, T, nv, f); else gen_func<a64::Compiler, a64::Gp>(ac, T, nv, f);
+      if (arch == 0) gen_func<x86::Compiler, x86::Gp>(xc, T, nv, f, nsteps); else gen_func<a64::Compiler, a64::Gp>(ac, T, nv, f, nsteps);
       if (T.failed()) return;
+    }
+    if (d.hist & 4) {
+      // growing history: a data block after the last function - ONE node-arena request that no kept block can hold
+      size_t len = kHistEmbed[std::min<size_t>(gen, 2)];
+      std::string data(len, 0);
+      hist_fill(data, gen + 777);
+      Arena& ba = arch == 0 ? xc._builder_arena : ac._builder_arena;
+      if (len > ba.remaining_size() && ba._current_block && ba._current_block != g_zero_block && ba._current_block->next) {
+        r.shapes.insert("builder_slow_request_with_kept_blocks");
+        if (arena_kept_blocks_smaller_than(ba, len)) r.shapes.insert("builder_request_larger_than_next_kept_block");
+      }
+      TRY(T, e->embed(data.data(), len), "embed(growing)");
     }
     TRY(T, e->finalize(), "Compiler::finalize");
     TRY(T, code.flatten(), "CodeHolder::flatten");
@@ -1226,6 +1567,7 @@ static Decoded decode(const vh::Case& c) {
   // continue mode only where every later call validates what it gets: the Assembler (W1) and the containers (W5). After a failed
   // Builder::section()/bind() the harness's model of section order would no longer match the node list (W2 excluded).
   d.cont = (cfg(7) & 1) != 0 && (d.W == 1 || d.W == 5);
+  d.hist = d.W == 4 ? 0 : int(umod(cfg(8), 64));      // W4 re-uses its holder after reset(kSoft) for every function anyway
   size_t nsteps = 0;
   for (const vh::Op& op : c.ops) {
     if (op.empty()) continue;
@@ -1233,7 +1575,7 @@ static Decoded decode(const vh::Case& c) {
       if (d.plan.size() < 8) d.plan.push_back(fi::Entry{int(umod(argof(op, 1), 3)), uint64_t(argof(op, 2)) & 0xFFFFFFFull, argof(op, 3) != 0, uint64_t(argof(op, 4)) & 0xFFFFFFFFull, 0, uint64_t(argof(op, 5)) & 0x3FFFFFFFull});
     } else if (nsteps < 160) { d.steps.push_back(op); nsteps++; }
   }
-  vh::Case k; k.cfg = {d.W, d.variant, d.p[0], d.p[1], d.p[2], d.p[3]}; k.ops = d.steps;
+  vh::Case k; k.cfg = {d.W, d.variant, d.p[0], d.p[1], d.p[2], d.p[3], d.hist}; k.ops = d.steps;
   d.key = k.to_text();
   return d;
 }
@@ -1257,7 +1599,7 @@ static std::unique_ptr<Workload> make_workload(const Decoded& d) {
 // =============================================================================================
 // reference run (never faulted; counts the requests of each kind) — cached for the last instantiation
 // =============================================================================================
-struct RefInfo { std::string key; Res res; uint64_t n[fi::kKinds] = {0, 0, 0}; bool valid = false; };
+struct RefInfo { std::string key; Res res; uint64_t n[fi::kKinds] = {0, 0, 0}; bool marked = false; uint64_t mark[fi::kKinds] = {0, 0, 0}; bool valid = false; };
 
 static void run_reference(const Decoded& d, RefInfo& R) {
   R = RefInfo();
@@ -1268,7 +1610,8 @@ static void run_reference(const Decoded& d, RefInfo& R) {
     std::unique_ptr<Workload> w = make_workload(d);
     w->run(R.res);
     fi::disarm();
-    for (int k = 0; k < fi::kKinds; k++) R.n[k] = fi::S.count[k];
+    for (int k = 0; k < fi::kKinds; k++) { R.n[k] = fi::S.count[k]; R.mark[k] = fi::S.mark[k]; }
+    R.marked = fi::S.marked;
   }
   R.valid = true;
 }
@@ -1332,8 +1675,10 @@ void vh_run(const vh::Case& c, vh::Ctx& ctx) {
   // ---- faulty run on fresh objects ----
   Res f;
   std::unique_ptr<Workload> w;
-  uint64_t hits[fi::kKinds], hit_total;
+  uint64_t hits[fi::kKinds], hit_total, hits_after_reset;
   std::string failed_request_s; const char* failed_request;
+  if (d.hist) ctx.cls(W + ".hist.plans");
+  if (R.marked) { ctx.cls(W + ".hist.plans_with_soft_reset_in_fault_window"); for (const std::string& sh : R.res.shapes) ctx.cls(W + ".hist." + sh); }
   {
     fi::S.phase = 1;
     fi::arm(d.plan);
@@ -1342,6 +1687,7 @@ void vh_run(const vh::Case& c, vh::Ctx& ctx) {
     fi::disarm();
     for (int k = 0; k < fi::kKinds; k++) hits[k] = fi::S.hits[k];
     hit_total = fi::total_hits();
+    hits_after_reset = fi::S.hits_after_mark;
     failed_request_s = fi::g_site[0] ? fi::g_site : fi::S.last_fail; failed_request = failed_request_s.c_str();
     if (g_excluded_delta) { ctx.known_excluded(kKeyDeltaReloc); g_excluded_delta = 0; }
     if (fi::S.suppressed) { ctx.known_excluded(kKeyConstPoolShared); ctx.cls(W + ".fault_suppressed_known_crash_site"); }
@@ -1351,6 +1697,17 @@ void vh_run(const vh::Case& c, vh::Ctx& ctx) {
   snprintf(where, sizeof where, "plan [%s] first failed request: %s (requests in a clean run: arena %llu heap %llu vm %llu); first error %u from %s at step %d",
            ptxt.c_str(), failed_request, (unsigned long long)R.n[0], (unsigned long long)R.n[1], (unsigned long long)R.n[2], unsigned(f.err), f.call[0] ? f.call : "-", f.step);
 
+  // the arenas of the (possibly failed) objects reference only memory they own - checked before anything is reset or reused
+  auto check_arenas = [&](const char* when) {
+    std::string why;
+    if (w->arenas_ok(why)) return;
+    // the object is not destroyed (its destructor would release the stale block a second time): the failure is reported instead
+    __lsan_ignore_object(w.get());
+    (void)w.release();
+    ctx.fail(pfx + "arena-references-released-block", why + " " + when + "; " + where);
+  };
+  check_arenas("after the faulted run");
+  if (hits_after_reset) { ctx.cls(W + "." + kind + ".fault_hit_after_soft_reset"); if (f.err != Error::kOk) ctx.cls(W + "." + kind + ".error_reported_after_soft_reset"); }
   VH_CHECK(ctx, f.sem.empty(), (pfx + "wrong-content").c_str(), "%s; %s", f.sem.c_str(), where);
   if (hit_total == 0) {
     ctx.cls(W + "." + kind + ".fault_not_reached");
@@ -1388,6 +1745,7 @@ void vh_run(const vh::Case& c, vh::Ctx& ctx) {
              "after reset(%s) the fault-free re-run on the same objects produces different output (output: %s; with layout/log: %s); %s", d.hard ? "hard" : "soft",
              diff_text(r2.bytes, R.res.bytes).c_str(), diff_text(r2.full, R.res.full).c_str(), where);
     if (hit_total) ctx.cls(W + "." + kind + ".rerun_identical");
+    check_arenas("after the fault-free re-run");
   }
   w.reset();
 
@@ -1431,7 +1789,9 @@ static vh::Op fault_op(int kind, int64_t k, int from) { return vh::Op{90, kind, 
 rc::Gen<vh::Case> vh_gen(const vh::Opts&) {
   using namespace rc;
   auto stepGen = gen::exec([]() -> vh::Op {
-    return vh::Op{*vh::irange<int>(0, 49), *vh::irange<int>(0, 1000), *vh::irange<int>(0, 255), *vh::irange<int>(0, 15)};
+    // one step in eight is an arena-history step (soft reset / large request / growth burst; interpreted by W5)
+    int code = *vh::irange<int>(0, 7) == 0 ? *vh::irange<int>(50, 89) : *vh::irange<int>(0, 49);
+    return vh::Op{code, *vh::irange<int>(0, 1000), *vh::irange<int>(0, 255), *vh::irange<int>(0, 15)};
   });
   auto planGen = gen::exec([]() -> std::vector<vh::Op> {
     std::vector<vh::Op> ops;
@@ -1452,8 +1812,10 @@ rc::Gen<vh::Case> vh_gen(const vh::Opts&) {
   });
   auto cfgGen = gen::exec([]() -> std::vector<int64_t> {
     int W = *vh::irange<int>(1, 5);
+    // a third of the instantiations are histories (soft reset + larger program inside the fault window)
+    int hist = *vh::irange<int>(0, 2) == 0 ? *vh::irange<int>(1, 63) : 0;
     return {W, *vh::irange<int>(0, 2), *vh::irange<int>(0, 63), *vh::irange<int>(0, 63), *vh::irange<int>(0, 63), *vh::irange<int>(0, 63),
-            *vh::irange<int>(0, 1), *vh::irange<int>(0, 3) == 0 ? 1 : 0};
+            *vh::irange<int>(0, 1), *vh::irange<int>(0, 3) == 0 ? 1 : 0, hist};
   });
   return gen::apply([](std::vector<int64_t> cfg, std::vector<vh::Op> steps, std::vector<vh::Op> plan) {
       vh::Case c; c.cfg = std::move(cfg); c.ops = std::move(steps);
@@ -1487,12 +1849,44 @@ static vh::Case fixed_instance(int W, int variant, uint64_t seed, size_t nsteps)
   return c;
 }
 
+// W5 instantiation whose steps ARE an arena history: growth, soft reset, requests that exceed the kept blocks, growth again.
+static vh::Case w5_history_instance(uint64_t seed) {
+  vh::Case c;
+  uint64_t s = seed * 7777777ull + 5;
+  c.cfg = {5, 0, int64_t(seed & 1), 0, 0, 0, int64_t(seed & 1), 0, 0};     // arena block size 1024 / 4096
+  auto plain = [&](size_t n) { for (size_t i = 0; i < n; i++) c.ops.push_back(vh::Op{int64_t(sm64(s) % 12), int64_t(sm64(s) % 1001), int64_t(sm64(s) % 256), int64_t(sm64(s) % 16)}); };
+  auto ext = [&](int kind, int64_t a, int64_t b, int64_t cc) { c.ops.push_back(vh::Op{50 + kind, a, b, cc}); };
+  plain(6);
+  ext(1, 1, int64_t(2 + seed % 3), 0);        // 3000..6000 bytes: a block of its own
+  ext(4, 3, 1, 0);                            // vector growth: reusable slots, then dynamic blocks
+  ext(3, 5, 12, 1);                           // constant pool burst
+  plain(4);
+  ext(0, 0, 0, 0);                            // ---- soft reset: >= 3 kept blocks ----
+  plain(3);
+  ext(1, 2, 5, 1);                            // 9000+: larger than every kept block after the current one
+  ext(2, 7, 4, 0);                            // dup of 5000 characters
+  ext(5, 9, 1, 0);                            // hash growth
+  plain(3);
+  ext(0, 0, 0, 0);                            // ---- second soft reset ----
+  ext(3, 11, 30, 2);
+  ext(2, 13, 5, 1);                           // ArenaString of 9000 characters
+  ext(1, 4, 6, 3);                            // zeroed, at least twice the largest so far
+  ext(4, 6, 3, 0);
+  plain(3);
+  ext(1, 8, 8, 1);                            // 70000+
+  return c;
+}
+
 static std::vector<vh::Case>* g_enum = nullptr;
+static uint64_t g_enum_total = 0;
 static std::map<std::string, uint64_t> g_enum_points;
 static std::set<std::string> g_enum_sites;
 
 static void build_enumeration(const vh::Opts& o) {
   g_enum = new std::vector<vh::Case>();
+  // only this worker's share is stored (the cases stay live for the whole run and every LeakSanitizer check walks the live heap)
+  const uint64_t nworkers = uint64_t(std::max(1, o.workers)), me = uint64_t(o.worker) % nworkers;
+  auto enum_add = [&](const vh::Case& c) { if (g_enum_total++ % nworkers == me) g_enum->push_back(c); };
   size_t ninst0 = o.is_thorough() ? size_t(o.geti("instances", 10)) : size_t(o.geti("instances", 1));
   for (int W = 1; W <= 5; W++) {
     if (!g_enable[W]) continue;
@@ -1517,9 +1911,9 @@ static void build_enumeration(const vh::Opts& o) {
             if (R.n[kind] == 0) break;
             vh::Case c = base;
             c.ops.push_back(fault_op(kind, int64_t(k), 0));
-            g_enum->push_back(c);
+            enum_add(c);
             // continue-after-error variant for the emitter / container workloads (every 3rd fault point)
-            if ((W == 1 || W == 5) && k % 3 == 0 && k < R.n[kind]) { vh::Case c2 = c; c2.cfg[7] = 1; g_enum->push_back(c2); }
+            if ((W == 1 || W == 5) && k % 3 == 0 && k < R.n[kind]) { vh::Case c2 = c; c2.cfg[7] = 1; enum_add(c2); }
           }
           // "every request issued by one function fails" (persistent failure of one allocation site), from its first and from its middle request
           for (auto& kv : sites[kind]) {
@@ -1528,14 +1922,70 @@ static void build_enumeration(const vh::Opts& o) {
               if (half && kv.second.first < 2) continue;
               vh::Case c = base;
               c.ops.push_back(vh::Op{90, kind, int64_t(half ? kv.second.first / 2 : 0), 1, 0, int64_t(kv.first)});
-              g_enum->push_back(c);
+              enum_add(c);
             }
           }
           // "every request from k on fails" at a few positions
           for (uint64_t q = 0; q < 4 && R.n[kind] > 0; q++) {
             vh::Case c = base;
             c.ops.push_back(fault_op(kind, int64_t(R.n[kind] * q / 4), 1));
-            g_enum->push_back(c);
+            enum_add(c);
+          }
+        }
+      }
+    }
+  }
+  // ---- histories: generation A -> soft reset / reinit -> larger generation B, all inside the fault window ----
+  // EVERY heap position of the whole history, every arena position of the post-reset phase (the positions before it are those of an
+  // ordinary instantiation), "every request after the soft reset fails", and persistent failure of each heap-requesting function.
+  size_t nhist = o.is_thorough() ? std::max<size_t>(4, ninst0 / 2) : size_t(o.geti("histories", 2));
+  static const int64_t kHistFlavour[] = {1 | 4, 1 | 2 | 4 | 16, 1 | 4 | 8 | 32, 1 | 2 | 48, 1 | 8 | 16, 1 | 2 | 4 | 8};
+  for (int W = 1; W <= 5; W++) {
+    if (!g_enable[W] || W == 4) continue;
+    int nvar = W == 5 ? 1 : 2;
+    for (int v = 0; v < nvar; v++) {
+      for (size_t hi = 0; hi < nhist + (W == 5 ? nhist : 0); hi++) {
+        vh::Case base;
+        if (W == 5 && hi >= nhist) base = w5_history_instance(hi - nhist + 1);
+        else {
+          base = fixed_instance(W, v, 100 + hi + 1, W == 3 ? 10 + 4 * (hi % 3) : W == 5 ? 26 + 6 * (hi % 3) : 16 + 6 * (hi % 3));
+          base.cfg.push_back(kHistFlavour[hi % NELEM(kHistFlavour)]);
+          if (W == 3) base.cfg[2] = 6 + int64_t(hi * 5 % 12);           // 9..20 virtual registers in the last generation
+          if (W == 5) base.cfg[2] = int64_t(hi & 1);                    // arena block size 1024 / 4096
+        }
+        Decoded d = decode(base);
+        RefInfo R;
+        fi::S.tracking = false;
+        std::map<uint64_t, std::pair<uint64_t, std::string>> sites[fi::kKinds];
+        fi::S.sites = sites; fi::S.record_sites = true;
+        run_reference(d, R);
+        fi::S.record_sites = false; fi::S.sites = nullptr;
+        if (R.res.err != Error::kOk || !R.marked) { fprintf(stderr, "C15: history instantiation W%d variant %d #%zu %s (%s -> %u at step %d)\n", W, v, hi, R.marked ? "fails without faults" : "never reaches its soft reset", R.res.call, unsigned(R.res.err), R.res.step); continue; }
+        for (int kind = 0; kind < 2; kind++) {
+          if (R.n[kind] == 0) continue;
+          uint64_t first = kind == fi::kHeap ? 0 : R.mark[kind];
+          g_enum_points[std::string(wname(W)) + ".hist." + fi::kKindName[kind]] += R.n[kind] - first;
+          g_enum_points[std::string(wname(W)) + ".hist." + fi::kKindName[kind] + "_after_soft_reset"] += R.n[kind] - R.mark[kind];
+          for (uint64_t k = first; k <= R.n[kind]; k++) {
+            vh::Case c = base;
+            c.ops.push_back(fault_op(kind, int64_t(k), 0));
+            enum_add(c);
+            if ((W == 1 || W == 5) && kind == fi::kHeap && k % 2 == 0 && k < R.n[kind]) { vh::Case c2 = c; c2.cfg[7] = 1; enum_add(c2); }
+          }
+          // every request from the soft reset on fails / from the middle of the post-reset phase on
+          for (int half = 0; half < 2; half++) {
+            vh::Case c = base;
+            c.ops.push_back(fault_op(kind, int64_t(R.mark[kind] + (half ? (R.n[kind] - R.mark[kind]) / 2 : 0)), 1));
+            enum_add(c);
+          }
+          if (kind == fi::kHeap) for (auto& kv : sites[kind]) {
+            g_enum_sites.insert(std::string(fi::kKindName[kind]) + ":" + kv.second.second);
+            for (int half = 0; half < 2; half++) {
+              if (half && kv.second.first < 2) continue;
+              vh::Case c = base;
+              c.ops.push_back(vh::Op{90, kind, int64_t(half ? kv.second.first / 2 : 0), 1, 0, int64_t(kv.first)});
+              enum_add(c);
+            }
           }
         }
       }
@@ -1546,9 +1996,8 @@ static void build_enumeration(const vh::Opts& o) {
 bool vh_enum(const vh::Opts& o, uint64_t k, vh::Case& out) {
   if (o.geti("noenum", 0)) return false;
   if (!g_enum) build_enumeration(o);
-  uint64_t idx = k * uint64_t(std::max(1, o.workers)) + uint64_t(o.worker);
-  if (idx >= g_enum->size()) return false;
-  out = (*g_enum)[idx];
+  if (k >= g_enum->size()) return false;
+  out = (*g_enum)[k];
   return true;
 }
 
@@ -1576,6 +2025,7 @@ static void calibrate_call_sites(vh::Ctx& ctx) {
 void vh_init(const vh::Opts& o, vh::Ctx& ctx) {
   setvbuf(stdout, nullptr, _IONBF, 0);   // LeakSanitizer's exit path does not flush stdio
   { void* tmp[4]; (void)backtrace(tmp, 4); }   // loads the unwinder outside of any fault window
+  { Arena probe(1024); g_zero_block = probe._first_block; }    // the shared zero block every empty Arena points to
   calibrate_call_sites(ctx);
   fi::g_exclude_constpool_shared = ctx.is_known(kKeyConstPoolShared);
   g_excl_delta = ctx.is_known(kKeyDeltaReloc);
@@ -1585,6 +2035,7 @@ void vh_init(const vh::Opts& o, vh::Ctx& ctx) {
   long only = o.geti("only", 0);
   if (only) for (int w = 1; w <= 5; w++) g_enable[w] = (only == w);
   g_lsan_every = uint64_t(o.geti("lsan", 1));
+  g_arena_check = o.geti("arenacheck", 1) != 0;
   fi::g_trace_fail = o.geti("trace", 0) != 0;
 #ifdef C15_HAVE_W4
   warm_up_process_caches();
@@ -1598,7 +2049,7 @@ void vh_fini(const vh::Opts& o, vh::Ctx& ctx) {
       std::string s = "fault points enumerated (requests of the fixed instantiations, every k from 0 to the count):";
       for (auto& kv : g_enum_points) s += " " + kv.first + "=" + std::to_string(kv.second);
       s += "; distinct requesting functions (site-targeted persistent-failure plans): " + std::to_string(g_enum_sites.size());
-      s += "; enumerated plans in total: " + std::to_string(g_enum->size());
+      s += "; enumerated plans in total: " + std::to_string(g_enum_total);
       ctx.notes.push_back(s);
     }
   }
